@@ -795,6 +795,353 @@ fn hww_cases(rng: &mut Rng, thorough: bool) -> Vec<String> {
     out
 }
 
+
+// ------------------------------------------------------------------------------------------------
+// T-trace: real producer / flusher threads, schedule perturbation at the hook points
+
+#[derive(Clone, Debug)]
+struct TraceCase {
+    kind: Kind,
+    cap: usize,
+    producers: usize,
+    per: usize,
+    interval_us: u64,
+    flushes: usize,
+    err_pct: u64,
+    slow_us: u64,
+    /// drop the join handle while the producers are still appending (C05)
+    mid: bool,
+    seed: u64,
+}
+
+impl TraceCase {
+    fn encode(&self) -> String {
+        format!(
+            "trace {} {} {} {} {} {} {} {} {} {}",
+            self.kind.name(), self.cap, self.producers, self.per, self.interval_us, self.flushes, self.err_pct, self.slow_us, self.mid as u8, self.seed
+        )
+    }
+    fn decode(l: &str) -> Option<TraceCase> {
+        let w: Vec<&str> = l.split_whitespace().collect();
+        if w.len() != 11 || w[0] != "trace" {
+            return None;
+        }
+        Some(TraceCase {
+            kind: match w[1] {
+                "typed" => Kind::Typed,
+                "boxed" => Kind::Boxed,
+                _ => return None,
+            },
+            cap: w[2].parse().ok()?,
+            producers: w[3].parse().ok()?,
+            per: w[4].parse().ok()?,
+            interval_us: w[5].parse().ok()?,
+            flushes: w[6].parse().ok()?,
+            err_pct: w[7].parse().ok()?,
+            slow_us: w[8].parse().ok()?,
+            mid: w[9] == "1",
+            seed: w[10].parse().ok()?,
+        })
+    }
+}
+
+fn gen_trace(rng: &mut Rng, prop: &str) -> TraceCase {
+    let kind = if rng.chance(1, 2) { Kind::Typed } else { Kind::Boxed };
+    let producers = rng.range(1, 8) as usize;
+    let per = rng.range(5, 60) as usize;
+    let interval_us = *rng.pick(&[1u64, 50, 1000, 5000, 50_000_000]);
+    let seed = rng.next_u64() >> 16;
+    match prop {
+        "C09" => TraceCase { kind, cap: *rng.pick(&[1usize, 2, 3, 5, 10]), producers, per, interval_us, flushes: rng.below(3) as usize, err_pct: 10, slow_us: *rng.pick(&[0u64, 5, 30]), mid: false, seed },
+        "C05" => TraceCase { kind, cap: *rng.pick(&[2usize, 8, 4096]), producers, per, interval_us, flushes: rng.below(2) as usize, err_pct: 10, slow_us: *rng.pick(&[0u64, 5]), mid: rng.chance(2, 3), seed },
+        "C04" => TraceCase { kind, cap: *rng.pick(&[1usize, 2, 5, 33, 4096]), producers, per, interval_us: *rng.pick(&[1u64, 1, 50, 5000, 50_000_000]), flushes: rng.range(2, 6) as usize, err_pct: 10, slow_us: *rng.pick(&[0u64, 0, 10]), mid: false, seed },
+        _ => TraceCase { kind, cap: 4096, producers, per, interval_us, flushes: rng.below(4) as usize, err_pct: 35, slow_us: 0, mid: false, seed },
+    }
+}
+
+static PERTURB: std::sync::atomic::AtomicU64 = std::sync::atomic::AtomicU64::new(0x1234_5678);
+
+fn install_perturbation(seed: u64) {
+    PERTURB.store(seed | 1, Ordering::SeqCst);
+    metrique_writer_core::verif::set_callback(Some(Box::new(|_id| {
+        let mut z = PERTURB.fetch_add(0x9E37_79B9_7F4A_7C15, Ordering::Relaxed);
+        z = (z ^ (z >> 30)).wrapping_mul(0xBF58_476D_1CE4_E5B9);
+        z = (z ^ (z >> 27)).wrapping_mul(0x94D0_49BB_1331_11EB);
+        z ^= z >> 31;
+        match z % 16 {
+            0..=7 => {}
+            8..=11 => std::thread::yield_now(),
+            12..=14 => {
+                for _ in 0..((z >> 8) % 300) {
+                    std::hint::spin_loop();
+                }
+            }
+            _ => std::thread::sleep(Duration::from_micros(20)),
+        }
+    })));
+}
+
+fn block_on_timeout(mut f: Pin<Box<FlushWait>>, timeout: Duration) -> bool {
+    struct TW(std::thread::Thread);
+    impl std::task::Wake for TW {
+        fn wake(self: std::sync::Arc<Self>) {
+            self.0.unpark();
+        }
+    }
+    let waker = std::task::Waker::from(std::sync::Arc::new(TW(std::thread::current())));
+    let mut cx = std::task::Context::from_waker(&waker);
+    let t0 = Instant::now();
+    loop {
+        if let std::task::Poll::Ready(()) = std::future::Future::poll(f.as_mut(), &mut cx) {
+            return true;
+        }
+        if t0.elapsed() > timeout {
+            return false;
+        }
+        std::thread::park_timeout(Duration::from_millis(1));
+    }
+}
+
+#[derive(Default)]
+struct TraceOutcome {
+    oracle: Option<(String, String)>,
+    /// requests for the Lean specification predicates, with a label
+    spec: Vec<(String, String)>,
+    delivered: usize,
+    overflow: u64,
+    flushes_done: usize,
+}
+
+fn ent(id: u64) -> String {
+    format!("{}.{}", id / 1_000_000, id % 1_000_000)
+}
+
+fn run_trace(tc: &TraceCase) -> TraceOutcome {
+    use std::sync::Arc;
+    let mut out = TraceOutcome::default();
+    let built = build(tc.kind, tc.cap, Duration::from_micros(tc.interval_us), false);
+    let gate = built.gate.clone();
+    gate.slow_us.store(tc.slow_us, Ordering::Relaxed);
+    let start = Arc::new(std::sync::Barrier::new(tc.producers + 2));
+    let mut rng = Rng::new(tc.seed);
+    // (id, res, inv, ret) per producer
+    let mut prod_threads = vec![];
+    for p in 0..tc.producers {
+        let h = built.handle.clone();
+        let g = gate.clone();
+        let st = start.clone();
+        let mut r = rng.fork(p as u64);
+        let (per, err_pct) = (tc.per, tc.err_pct);
+        prod_threads.push(std::thread::spawn(move || {
+            let mut rec = Vec::with_capacity(per);
+            st.wait();
+            for k in 0..per {
+                let id = p as u64 * 1_000_000 + k as u64;
+                let res = if r.below(100) < err_pct { if r.chance(1, 2) { Res::Validation } else { Res::Io } } else { Res::Ok };
+                let inv = g.tick();
+                h.append(IdEntry { id, res });
+                let ret = g.tick();
+                rec.push((id, res, inv, ret));
+                match r.below(8) {
+                    0 => std::thread::yield_now(),
+                    1 => std::thread::sleep(Duration::from_micros(r.below(40))),
+                    _ => {}
+                }
+            }
+            rec
+        }));
+    }
+    let flusher = {
+        let h = built.handle.clone();
+        let g = gate.clone();
+        let st = start.clone();
+        let mut r = rng.fork(999);
+        let n = tc.flushes;
+        std::thread::spawn(move || {
+            let mut rec = vec![];
+            st.wait();
+            for _ in 0..n {
+                std::thread::sleep(Duration::from_micros(r.below(150)));
+                let inv = g.tick();
+                let fut = Box::pin(h.flush());
+                let ok = block_on_timeout(fut, Duration::from_secs(10));
+                let done = g.tick();
+                rec.push((inv, done, ok));
+            }
+            rec
+        })
+    };
+    let main_handle = built.handle;
+    let mut join = Some(built.join);
+    start.wait();
+    let mut begin_tick = u64::MAX;
+    let mut return_tick = u64::MAX;
+    let mut dropper: Option<JoinDropper> = None;
+    if tc.mid {
+        std::thread::sleep(Duration::from_micros(rng.below(400)));
+        begin_tick = gate.tick();
+        dropper = Some(JoinDropper::start(join.take().unwrap(), Duration::from_secs(10)));
+    }
+    let mut appended: Vec<(u64, Res, u64, u64)> = vec![];
+    let mut per_prod: Vec<Vec<u64>> = vec![];
+    for t in prod_threads {
+        let rec = t.join().unwrap_or_default();
+        per_prod.push(rec.iter().map(|r| r.0).collect());
+        appended.extend(rec);
+    }
+    let flush_rec = flusher.join().unwrap_or_default();
+    let total = appended.len();
+    let mut fail = |out: &mut TraceOutcome, key: &str, what: String| {
+        if out.oracle.is_none() {
+            out.oracle = Some((key.to_string(), what));
+        }
+    };
+    if !tc.mid {
+        // every wake-up must get through: all entries are written or counted as overflow without any
+        // further stimulus (with a 50 s interval nothing but `unpark` can wake the writer)
+        let t0 = Instant::now();
+        loop {
+            let d = gate.lock().calls.iter().filter(|c| matches!(c, Call::Next(..))).count();
+            let ov = built.counters.overflows.load(Ordering::SeqCst) as usize;
+            if d + ov >= total {
+                break;
+            }
+            if t0.elapsed() > Duration::from_secs(10) {
+                fail(&mut out, "queue:trace-stuck", format!("{} of {total} appended entries are neither written nor counted as overflow 10 s after the last append (lost wake-up?)", total - d - ov));
+                break;
+            }
+            std::thread::sleep(Duration::from_micros(200));
+        }
+    }
+    drop(main_handle);
+    if dropper.is_none() {
+        dropper = Some(JoinDropper::start(join.take().unwrap(), Duration::from_secs(10)));
+    }
+    let mut d = dropper.unwrap();
+    if !d.finish(Duration::from_secs(40)) {
+        fail(&mut out, "queue:c05-join-hangs", "drop(join_handle) did not return within 40 s".into());
+        gate.open();
+    } else if tc.mid {
+        return_tick = gate.tick();
+    }
+    let (calls, stamps, closed, after_close) = {
+        let g = gate.lock();
+        (g.calls.clone(), g.stamps.clone(), g.closed, g.calls_after_close)
+    };
+    let ov = built.counters.overflows.load(Ordering::SeqCst);
+    out.overflow = ov;
+    // ---- oracles
+    let by_id: std::collections::HashMap<u64, (Res, u64, u64)> = appended.iter().map(|a| (a.0, (a.1, a.2, a.3))).collect();
+    let mut next_stamp: std::collections::HashMap<u64, u64> = Default::default();
+    let mut last_k: Vec<Option<u64>> = vec![None; tc.producers];
+    for (i, c) in calls.iter().enumerate() {
+        match c {
+            Call::Next(id, res) => {
+                match by_id.get(id) {
+                    Some((r, _, _)) if r == res => {}
+                    _ => fail(&mut out, "queue:c01-foreign-entry", format!("the stream received entry {id} which nobody appended like that")),
+                }
+                if next_stamp.insert(*id, stamps[i]).is_some() {
+                    fail(&mut out, "queue:c01-duplicate", format!("entry {} was handed to the stream twice", ent(*id)));
+                }
+                let (p, k) = ((*id / 1_000_000) as usize, *id % 1_000_000);
+                if p < last_k.len() {
+                    if let Some(l) = last_k[p] {
+                        if k < l {
+                            fail(&mut out, "queue:c01-order", format!("producer {p}: entry {k} reached the stream after entry {l}"));
+                        }
+                    }
+                    last_k[p] = Some(k);
+                }
+            }
+            Call::Report => {
+                if !(i > 0 && matches!(calls[i - 1], Call::Next(_, Res::Validation))) {
+                    fail(&mut out, "queue:c01-report", "an in-band error report was written, but not directly after a validation failure".into());
+                }
+            }
+            Call::Unknown => fail(&mut out, "queue:c01-foreign-entry", "the stream received an entry nobody appended".into()),
+            Call::Flush => {}
+        }
+    }
+    out.delivered = next_stamp.len();
+    let lost: Vec<u64> = appended.iter().filter(|a| !next_stamp.contains_key(&a.0)).map(|a| a.0).collect();
+    if !tc.mid && out.oracle.is_none() {
+        if lost.len() as u64 != ov {
+            fail(&mut out, if ov == 0 { "queue:c01-lost" } else { "queue:c09-counter" },
+                format!("{} appended entries never reached the stream, but metrique_queue_overflows = {ov}", lost.len()));
+        }
+        if tc.cap >= total && ov > 0 {
+            fail(&mut out, "queue:c09-lost-without-cause", format!("overflow counted ({ov}) although the capacity {} was never exceeded ({total} entries)", tc.cap));
+        }
+    }
+    if tc.mid && out.oracle.is_none() {
+        // appended (returned) before the drop began and not written: only overflow may explain it
+        let lost_before = appended.iter().filter(|a| a.3 < begin_tick && !next_stamp.contains_key(&a.0)).count() as u64;
+        if lost_before > ov {
+            fail(&mut out, "queue:c05-lost-before-shutdown", format!("{lost_before} entries whose append returned before drop(join_handle) began were never written, overflow counter {ov}"));
+        }
+        if let Some(a) = appended.iter().find(|a| a.2 > return_tick && next_stamp.contains_key(&a.0)) {
+            fail(&mut out, "queue:c05-written-after-exit", format!("entry {} was appended after drop(join_handle) returned but was written", ent(a.0)));
+        }
+    }
+    if return_tick != u64::MAX || !tc.mid {
+        if !closed {
+            fail(&mut out, "queue:c05-join-before-close", "drop(join_handle) returned but the stream was not dropped".into());
+        } else if calls.last() != Some(&Call::Flush) {
+            fail(&mut out, "queue:c05-no-final-flush", "the stream was dropped without a final flush after the last entry".into());
+        }
+        if after_close > 0 {
+            fail(&mut out, "queue:c05-call-after-close", "the stream was called after it had been dropped".into());
+        }
+    }
+    // flush barrier
+    for (fi, (inv, done, ok)) in flush_rec.iter().enumerate() {
+        if !ok {
+            fail(&mut out, "queue:c04-flush-never-completes", format!("flush future {fi} did not complete within 10 s"));
+            continue;
+        }
+        out.flushes_done += 1;
+        if *done > begin_tick {
+            continue; // completed while/after shutting down: the barrier is promised for a live queue only
+        }
+        let before: Vec<u64> = appended.iter().filter(|a| a.3 < *inv).map(|a| a.0).collect();
+        let mut last = 0u64;
+        for id in &before {
+            match next_stamp.get(id) {
+                Some(s) if s < done => last = last.max(*s + 1),
+                Some(_) => fail(&mut out, "queue:c04-flush-barrier", format!("flush future {fi} completed before entry {}, appended before the request, was handed to the stream", ent(*id))),
+                None => {} // lost to overflow (accounted above)
+            }
+        }
+        let flushed = calls.iter().zip(stamps.iter()).any(|(c, s)| *c == Call::Flush && *s >= last && s < done);
+        if !flushed {
+            fail(&mut out, "queue:c04-flush-barrier", format!("flush future {fi} completed but the stream was not flushed after the last entry appended before the request"));
+        }
+        // the Lean predicate on the same data
+        let calls_before: Vec<String> = calls.iter().zip(stamps.iter()).filter(|(_, s)| *s < done).filter_map(|(c, _)| match c {
+            Call::Next(id, _) => Some(format!("n.{}", ent(*id))),
+            Call::Flush => Some("f".to_string()),
+            Call::Report => Some("r".to_string()),
+            Call::Unknown => None,
+        }).collect();
+        let lst = |v: Vec<String>| if v.is_empty() { "-".to_string() } else { v.join(" ") };
+        out.spec.push((
+            format!("barrier of flush {fi}"),
+            format!("barrier | {} | {} | {}", lst(before.iter().map(|i| ent(*i)).collect()), lst(lost.iter().map(|i| ent(*i)).collect()), lst(calls_before)),
+        ));
+    }
+    // the Lean order predicate
+    let pushes: Vec<String> = per_prod.iter().flatten().map(|i| ent(*i)).collect();
+    let deliv: Vec<String> = calls.iter().filter_map(|c| if let Call::Next(id, _) = c { Some(ent(*id)) } else { None }).collect();
+    let overflowed = ov > 0 || tc.mid;
+    let lst = |v: Vec<String>| if v.is_empty() { "-".to_string() } else { v.join(" ") };
+    out.spec.push((
+        "order".into(),
+        format!("order {} {} {} | {} | {}", tc.producers, overflowed as u8, (!overflowed) as u8, lst(pushes), lst(deliv)),
+    ));
+    out
+}
+
 // ------------------------------------------------------------------------------------------------
 
 fn split_obs(reply: &str) -> Vec<String> {
@@ -893,10 +1240,13 @@ fn main() {
 
     let mut cases: Vec<Case> = vec![];
     let mut hww: Vec<String> = vec![];
+    let mut traces: Vec<TraceCase> = vec![];
     if let Some(line) = args.replay_case() {
         let line = line.split(" ## ").next().unwrap_or("").to_string();
         if line.starts_with("hww") {
             hww.push(line);
+        } else if line.starts_with("trace") {
+            traces.extend(TraceCase::decode(&line));
         } else {
             cases.extend(Case::decode(&line).map(|c| c.finished()));
         }
@@ -904,6 +1254,8 @@ fn main() {
         for l in args.corpus_cases() {
             if l.starts_with("hww") {
                 hww.push(l);
+            } else if l.starts_with("trace") {
+                traces.extend(TraceCase::decode(&l));
             } else if let Some(c) = Case::decode(&l) {
                 cases.push(c.finished());
             } else {
@@ -921,6 +1273,11 @@ fn main() {
         }
         if prop == "C04" {
             hww = hww_cases(&mut rng, args.thorough());
+        }
+        let n_tr = if args.thorough() { 2000 } else { 100 };
+        let mut trng = rng.fork(77);
+        for _ in 0..n_tr {
+            traces.push(gen_trace(&mut trng, &prop));
         }
     }
 
@@ -1014,7 +1371,78 @@ fn main() {
     if max_append_us > 2_000_000 {
         rep.oracle_failure("queue:c09-append-blocks", "-", &format!("{max_append_us} us"), "an append took more than 2 s: appends must never block");
     }
-    rep.traces_validated += results.len() as u64 * 2;
+
+    // ---- T-trace: real threads, perturbation at the hook points
+    if !traces.is_empty() {
+        install_perturbation(args.seed);
+        let next = std::sync::atomic::AtomicUsize::new(0);
+        let outs: std::sync::Mutex<Vec<(usize, TraceOutcome)>> = std::sync::Mutex::new(vec![]);
+        let tthreads = if args.thorough() { 6 } else { 2 };
+        std::thread::scope(|sc| {
+            for _ in 0..tthreads {
+                sc.spawn(|| {
+                    loop {
+                        let i = next.fetch_add(1, Ordering::SeqCst);
+                        if i >= traces.len() {
+                            break;
+                        }
+                        let o = run_trace(&traces[i]);
+                        outs.lock().unwrap().push((i, o));
+                    }
+                });
+            }
+        });
+        metrique_writer_core::verif::set_callback(None);
+        let mut outs = outs.into_inner().unwrap();
+        outs.sort_by_key(|(i, _)| *i);
+        let mut spec_lines: Vec<String> = vec![];
+        let mut spec_owner: Vec<(usize, String)> = vec![];
+        let mut failures = 0;
+        for (i, o) in &outs {
+            let enc = traces[*i].encode();
+            rep.case(&enc, traces[*i].producers >= 2 && o.delivered >= 10);
+            rep.bump("trace runs");
+            rep.bump(&format!("trace interval_us:{}", traces[*i].interval_us));
+            rep.bump_by("trace entries delivered", o.delivered as u64);
+            rep.bump_by("trace entries displaced", o.overflow);
+            rep.bump_by("trace flush futures completed", o.flushes_done as u64);
+            if traces[*i].mid {
+                rep.bump("trace shutdown while producers run");
+            }
+            if let Some((key, what)) = &o.oracle {
+                failures += 1;
+                if failures <= 5 {
+                    rep.oracle_failure(key, &enc, &format!("delivered={} overflow={}", o.delivered, o.overflow), what);
+                }
+            }
+            for (label, line) in &o.spec {
+                spec_lines.push(line.clone());
+                spec_owner.push((*i, label.clone()));
+            }
+        }
+        match predict(&args, &spec_lines) {
+            Some(replies) => {
+                let mut rejected = 0;
+                for ((i, label), r) in spec_owner.iter().zip(replies.iter()) {
+                    if r == "accept" {
+                        rep.traces_validated += 1;
+                    } else {
+                        rejected += 1;
+                        if rejected <= 3 {
+                            rep.oracle_failure(
+                                if label == "order" { "queue:trace-spec-order" } else { "queue:trace-spec-barrier" },
+                                &traces[*i].encode(),
+                                r,
+                                &format!("the recorded history is rejected by the Lean specification predicate ({label})"),
+                            );
+                        }
+                    }
+                }
+                rep.bump_by("trace spec predicates evaluated in Lean", spec_lines.len() as u64);
+            }
+            None => rep.driver_available = false,
+        }
+    }
 
     // ---- waker state machine
     if !hww.is_empty() {
